@@ -383,13 +383,20 @@ func c23compare(src []byte, cfg c23cfg) (v c23verdict) {
 			}
 			d := false
 			kC, dC := c23diffToks(back, forkC.toks)
-			d = set(kC, dC, 1|semis) || d
 			k0, d0 := c23diffToks(back0, fork0.toks)
+			keC, deC := c23diffErrs(stdC.errs, forkC.errs, stdC.nerr, forkC.nerr)
+			ke0, de0 := c23diffErrs(std0.errs, fork0.errs, std0.nerr, fork0.nerr)
+			if strings.HasPrefix(kC, "linecol:") || kC == "" && strings.HasPrefix(k0, "linecol:") {
+				// only line:col of a token differs: a differing error list (e.g. a line directive that one
+				// scanner rejects) is the more telling key
+				d = set(keC, deC, 1|semis) || d
+				d = set(ke0, de0, semis) || d
+			}
+			d = set(kC, dC, 1|semis) || d
 			d = set(k0, d0, semis) || d
-			k, ds := c23diffErrs(stdC.errs, forkC.errs, stdC.nerr, forkC.nerr)
-			d = set(k, ds, 1|semis) || d
-			k, ds = c23diffErrs(std0.errs, fork0.errs, std0.nerr, fork0.nerr)
-			d = set(k, ds, semis) || d
+			d = set(keC, deC, 1|semis) || d
+			d = set(ke0, de0, semis) || d
+			var k, ds string
 			k, ds = c23diffLines(stdC.lines, forkC.lines)
 			d = set(k, ds, 1|semis) || d
 			k, ds = c23diffLines(std0.lines, fork0.lines)
@@ -527,7 +534,7 @@ func c23read(rootName, rel string) ([]byte, error) {
 var c23vocab = []string{
 	"a", "x", "_", "foo", "Bar9", "α", "日本", "if", "else", "for", "func", "return", "break", "continue", "fallthrough",
 	"goto", "go", "defer", "chan", "map", "struct", "interface", "select", "switch", "case", "default", "type", "var",
-	"const", "package", "import", "range", "macros", "Macro", "templat", "quote",
+	"const", "package", "import", "range", "macros", "Macro", "templat", "template", "quote", "/!", "/!=", "a/!b", "!/", "'/'", "lambda", "typecase", "unquote",
 	"0", "1", "42", "007", "08", "0x1F", "0X_a", "0b101", "0B1_0", "0o17", "0O7", "1_000", "1__0", "_1", "1_", "0_7", "0x", "0b", "0o",
 	"0b2", "0o8", "1.", ".5", "1.5", "1e3", "1E+3", "1e-3", "1e", "1e+", "0x1p4", "0x1.8p-1", "0x.p1", "0x1.8", "0x1e3", "1p3", "0b1e3",
 	"0o1.5", "1i", "1.5i", "0x1p4i", "0b1i", "09i", "09.5", "0_9.5", "1_.5", "1._5", "1e_3", "0x_1", "0_x1", "1.e3",
@@ -1104,6 +1111,12 @@ func c23exec(op string) Result {
 		}
 		c23skipNoSemis = fnvSum(f[2])%8 != 0 // the two dontInsertSemis modes only for 1 file in 8 (cost)
 		res := c23verdictResult(op, b, c23cfg{'~', 0}, "file")
+		if res.Viol == "" && !c23hasTag(res.Tags, "extfree") {
+			// the file uses '~' (type sets) or the word macro: with another macro character '~' is no extension
+			res2 := c23verdictResult(op, b, c23cfg{'$', 0}, "file")
+			res2.Tags = append(res2.Tags, "file-second-macrochar")
+			res = res2
+		}
 		c23skipNoSemis = false
 		return res
 	case "mut":
@@ -1149,6 +1162,15 @@ func c23verdictResult(op string, src []byte, cfg c23cfg, class string) Result {
 		}
 	}
 	return res
+}
+
+func c23hasTag(tags []string, t string) bool {
+	for _, x := range tags {
+		if x == t {
+			return true
+		}
+	}
+	return false
 }
 
 func c23trunc(s string, n int) string {
